@@ -122,14 +122,31 @@ Proof.
   rewrite R_bind. specialize (G (cv_d cv) [] t). simpl in G. rewrite G. Rsimp. reflexivity.
 Qed.
 
-(** ---- convert_to_implication *)
+(** ---- convert_to_implication: written as a structural recursion on the antecedents, or as a right fold
+    ([functools.reduce] over the reversed initial segment, starting from the innermost implication) *)
+Lemma chain_imp_snoc l x c : chain_imp (l ++ [x]) c = chain_imp l (Imp x c).
+Proof. induction l as [|a l IH]; simpl; [reflexivity|]. rewrite IH. reflexivity. Qed.
+
+Lemma chain_imp_fold rinit : forall acc,
+  fold_left (fun consequent ant => Imp ant consequent) rinit acc = chain_imp (rev rinit) acc.
+Proof.
+  induction rinit as [|y r IH]; intros acc; simpl; [reflexivity|]. rewrite IH, chain_imp_snoc. reflexivity.
+Qed.
+
 Lemma gen_convert_to_implication_agree cv ants c t :
   ants <> [] -> R (gen_convert_to_implication cv ants c) t = Some (chain_imp ants c, t).
 Proof.
-  revert t. induction ants as [|a ants IH]; intros t H; [contradiction|].
-  cbn [gen_convert_to_implication]. destruct ants as [|b ants]; cbn [py_nonempty]; cbv iota.
-  - Rsimp. reflexivity.
-  - Rsimp. rewrite IH by discriminate. Rsimp. reflexivity.
+  first
+  [ (* recursive form *)
+    revert t; induction ants as [|a ants IH]; intros t H; [contradiction|];
+    cbn [gen_convert_to_implication]; destruct ants as [|b ants]; cbn [py_nonempty]; cbv iota;
+    [ Rsimp; reflexivity | Rsimp; rewrite IH by discriminate; Rsimp; reflexivity ]
+  | (* fold form *)
+    intros H; unfold gen_convert_to_implication;
+    destruct (rev ants) as [|lastp rinit] eqn:ER;
+    [ exfalso; apply H; rewrite <- (rev_involutive ants), ER; reflexivity |];
+    Rsimp; rewrite ?rev_involutive, chain_imp_fold, <- chain_imp_snoc;
+    rewrite <- (rev_involutive ants), ER; reflexivity ].
 Qed.
 
 (** ---- literal stack reads *)
@@ -658,8 +675,10 @@ Proof.
   rewrite GL. cbv beta iota.
   destruct (top t) as [[p|p]|] eqn:T; try discriminate. destruct (pat_eqb p (lemma_pat d sid a)) eqn:E; [|discriminate].
   unfold top in T. destruct t as [[stk mem cl] h o]. cbn [mst stack hd_error] in T. destruct stk as [|y stk]; [discriminate|].
-  inversion T; subst y. Rstep.
-  rewrite (gen_get_lemma_by_name_agree _ _ _ _ _ F). Rstep. unfold lm_pattern, mk_proved. cbn [lm_a Instr.term_eqb]. rewrite E. Rstep.
+  inversion T; subst y.
+  (* the target lemma may be looked up again here, or the first lookup re-used *)
+  repeat (Rstep; rewrite ?(gen_get_lemma_by_name_agree _ _ _ _ _ F)).
+  unfold lm_pattern, mk_proved. cbn [lm_a Instr.term_eqb]. rewrite E. Rstep.
   unfold i_publish_proof. Rstep. rewrite term_eqb_refl'. Rstep.
   match goal with |- context [do [OPublish] ?st] => assert (DP: do [OPublish] st = Some (mkT (mst t'') (heap st) (out t''))) end.
   { unfold do in FIN |- *. cbn [mst out heap] in FIN |- *. destruct (iruns Proof [OPublish] _); [|discriminate]. inversion FIN. reflexivity. }
